@@ -19,7 +19,10 @@ OPS = ["downstream", "upstream_sum", "fillnodata(up)", "fillnodata(down,min)", "
        "errors"]
 RULE = ("random loop-free networks on rasters <= 56 cells (quick) / <= 400 (thorough): D8 networks from random "
         "DEMs and arbitrary forests, both classes (FlwdirRaster, Flwdir); fields = small random integers with "
-        "20-80% nodata cells (nodata in {-9999,-1,0}); downstream / upstream_sum also (40%) on integer fields of every "
+        "20-80% nodata cells (nodata in {-9999,-1,0}); fillnodata also (30%) on float32 / float64 fields whose valid cells "
+        "hold values at dyadic distances 2**-4 .. 2**-40 of nodata's binade (both signs, incl. the neighbouring floats) from "
+        "nodata in {-9999,-1,1,+-float32(1e20),float32(3e38),float32(-2.5e-3)}, all values and partial sums exactly "
+        "representable, judged on an own exact-rational oracle and (scaled to integers) on the Lean model; downstream / upstream_sum also (40%) on integer fields of every "
         "dtype int8..int64 / uint8..uint64 (half of them 64-bit) over the whole range of the dtype - values and sums at "
         "the range ends, beyond 2**53 and (uint64) 2**63, one dominant + tiny inflows, mixed signs, mv at a range end or "
         "the default - with every true (partial) sum inside the dtype, compared exactly as integers; windows n = 0..4, how in {min,max,sum}, weights incl. 0 "
@@ -411,7 +414,172 @@ def case_upstream_sum(ctx, rng, N):
             [("c14_upstream_sum", {"ds": N.ds, "data": data, "nodata": nd})], judge, nontrivial=N.nontriv)
 
 
+# ---------------------------------------------------------------------------------------------
+# fillnodata on float fields holding VALID values very close to (but different from) the nodata value
+F32_BIG = float(np.float32(1e20))                  # 100000002004087734272 = 0x56BC76 * 2**43
+NEAR_NODATA = [-9999.0, -9999.0, -1.0, 1.0, F32_BIG, -F32_BIG, float(np.float32(3e38)), float(np.float32(-2.5e-3))]
+
+
+def _representable(fr, dt):
+    """is the rational `fr` exactly a finite value of float dtype `dt`"""
+    try:
+        f = float(fr)
+    except OverflowError:
+        return False
+    if f != f or f in (float("inf"), float("-inf")) or Fraction(f) != fr:
+        return False
+    with np.errstate(over="ignore"):
+        g = float(dt(f))
+    return g == f
+
+
+def _pow2_scale(vals):
+    """the power of two S (a Fraction) with all v * S integers, not all of them even"""
+    e = max(v.denominator.bit_length() - 1 for v in vals)
+    assert all(v.denominator & (v.denominator - 1) == 0 for v in vals)
+    if e > 0:
+        return Fraction(2 ** e)
+    nz = [abs(v.numerator) for v in vals if v != 0]
+    t = min(((x & -x).bit_length() - 1 for x in nz), default=0)
+    return Fraction(1, 2 ** t)
+
+
+def fill_oracle(ds, data, nd, direction, how):
+    """harness' own declarative oracle for fillnodata on exact values (Fractions): 'up' = value of the nearest valid
+    cell on the downstream path; 'down' = min/max/sum of the nearest valid values upstream (through empty cells)"""
+    n = len(ds)
+    out = list(data)
+    if direction == "up":
+        for i in range(n):
+            if ds[i] == n or data[i] != nd:
+                continue
+            j, k = i, 0
+            while ds[j] != j and data[j] == nd and k <= n:
+                j, k = ds[j], k + 1
+            out[i] = data[j]
+        return out
+    depth = [0] * n
+    for i in range(n):
+        j, k = i, 0
+        while ds[i] != n and ds[j] != j and k <= n:
+            j, k = ds[j], k + 1
+        depth[i] = k
+    got = [None if (data[i] == nd or ds[i] == n) else data[i] for i in range(n)]     # value carried downstream
+    for i in sorted(range(n), key=lambda c: -depth[c]):       # upstream cells first
+        d = ds[i]
+        if d == n or d == i or got[i] is None or data[d] != nd:
+            continue
+        if got[d] is None:
+            got[d] = got[i]
+        else:
+            got[d] = max(got[d], got[i]) if how == "max" else min(got[d], got[i]) if how == "min" else got[d] + got[i]
+    return [out[i] if (ds[i] == n or data[i] != nd or got[i] is None) else got[i] for i in range(n)]
+
+
+def case_fill_near(ctx, rng, N):
+    """fillnodata (both directions, min/max/sum) on float32 / float64 fields in which valid cells hold values at dyadic
+    distances 2**-4 .. 2**-40 (relative to the binade of nodata, both signs; incl. the neighbouring floats) from the
+    nodata value, nodata in {-9999, -1, 1, float32(1e20) (+-), float32(3e38), float32(-2.5e-3)}. Every value and every
+    partial sum is exactly representable in the dtype (asserted), so the expectation is exact: an empty cell is a cell
+    EQUAL to nodata. Judged on the harness' own oracle (exact rationals) and, scaled by a power of two to integers, on
+    the Lean model and oracle."""
+    direction = rng.choice(["up", "down", "down"])
+    how = rng.choice(["min", "max", "sum"])
+    dt = rng.choice([np.float64, np.float64, np.float32])
+    nd_f = rng.choice(NEAR_NODATA)
+    nd = Fraction(nd_f)
+    mant = 24 if dt == np.float32 else 53
+    M = Fraction(2) ** (int(np.floor(np.log2(abs(nd_f)))))        # binade of |nodata|
+    assert M <= abs(nd) < 2 * M
+    # ordinary values: small integers (in units of 1, or of M/16 so that sums with the near-nodata values stay exact)
+    big = abs(nd) >= 2 ** 20 or abs(nd) < Fraction(1, 16)
+    unit = M / 16 if (big and (how == "sum" or direction == "up" or rng.random() < 0.5)) else Fraction(1)
+    p_nd = rng.choice([0.3, 0.5, 0.7])
+    p_near = rng.choice([0.15, 0.3, 0.5])
+    ks = [k for k in range(4, 41) if _representable(nd + M / 2 ** k, dt) and _representable(nd - M / 2 ** k, dt)]
+    # half of the draws from the fine end (the neighbouring floats of nodata in float32, <= 2**-30 in float64)
+    fine = [k for k in ks if k >= (mant - 4 if dt == np.float32 else 28)]
+    style = rng.choice(["any", "fine", "finest"])
+    data = []
+    n_near = 0
+    for i in range(N.n):
+        u = rng.random()
+        if u < p_nd:
+            data.append(nd)
+        elif u < p_nd + (1 - p_nd) * p_near:
+            k = rng.choice(ks) if (style == "any" or not fine) else rng.choice(fine) if style == "fine" else ks[-1]
+            data.append(nd + rng.choice([-1, 1]) * M / 2 ** k)
+            n_near += 1
+        else:
+            v = rng.randint(-4, 12) * unit
+            data.append(v if v != nd else v + unit)
+    if how == "sum" and direction == "down":
+        # exactness of every partial sum: all values are multiples of 1/S; their magnitudes add up to < 2**mant / S
+        S0 = _pow2_scale(data + [nd])
+        if sum(abs(v * S0) for v in data if v != nd) >= 2 ** mant:
+            dt, mant = np.float64, 53
+            ctx.count("fill(near-nodata):sum-moved-to-float64")
+        assert sum(abs(v * S0) for v in data if v != nd) < 2 ** mant, "harness: near-nodata sum field outside the exact domain"
+    assert all(_representable(v, dt) for v in data + [nd]) and all(v != nd or True for v in data)
+    field = np.array([float(v) for v in data], dtype=dt).reshape(N.shape)
+    assert [Fraction(float(x)) for x in field.ravel().tolist()] == data, "harness: field not representable"
+    S = _pow2_scale(data + [nd])
+    data_i = [int(v * S) for v in data]
+    nd_i = int(nd * S)
+    assert all(Fraction(a) == v * S for a, v in zip(data_i, data)) and Fraction(nd_i) == nd * S
+    if direction == "up":
+        out = N.flw.fillnodata(field, float(nd_f), direction="up")
+        req = [("c14_fill_up", {"ds": N.ds, "seq": N.seq, "data": data_i, "nodata": nd_i})]
+        name = "fillnodata(up)"
+    else:
+        out = N.flw.fillnodata(field, float(nd_f), direction="down", how=how)
+        req = [("c14_fill_down", {"ds": N.ds, "seq": N.seq, "data": data_i, "nodata": nd_i, "how": HOW[how]})]
+        name = f"fillnodata(down,{how})"
+    raw = np.asarray(out).ravel().tolist()
+    finite = all(x == x and x not in (float("inf"), float("-inf")) for x in raw)
+    impl = [Fraction(float(x)) for x in raw] if finite else None
+    want = fill_oracle(N.ds, data, nd, direction, how)
+    filled = impl is not None and sum(1 for i in range(N.n) if impl[i] != data[i])
+    ctx.count("op:" + name)
+    ctx.count("op:" + name + "(near-nodata values:" + np.dtype(dt).name + ")")
+    ctx.count("fill(near-nodata):nodata=" + repr(nd_f))
+    ctx.count("fill(near-nodata):valid-cells-near-nodata", n_near)
+    ctx.count("fill(near-nodata):valid-cells-within-1e-6-relative", sum(1 for v in data if v != nd and abs(v - nd) <= abs(nd) / 10 ** 6))
+    ctx.count("fill:cells-filled", int(filled or 0))
+    same_dtype = out.dtype == field.dtype
+
+    def judge(ans):
+        e = drv_err(ans)
+        if e:
+            return e
+        a = ans[0]
+        fs = []
+        if impl is None:
+            return [{"kind": "spec", "what": name + ": non-finite output on a finite field", "impl": raw}]
+        bad = [i for i in range(N.n) if impl[i] != want[i]]
+        if bad:
+            fs.append({"kind": "spec", "what": f"{name} [{np.dtype(dt).name}, nodata={nd_f!r}]: differs from the flow-path definition "
+                       f"(empty = EQUAL to nodata; values near nodata are values) at cells {bad[:6]}",
+                       "impl": [float(x) for x in impl], "expected": [float(x) for x in want]})
+        if not same_dtype:
+            fs.append({"kind": "model", "what": f"{name}: result dtype {out.dtype} != field dtype"})
+        topo_fail(fs, a)
+        if any((x * S).denominator != 1 for x in impl):
+            if not bad:
+                fs.append({"kind": "model", "what": name + ": output outside the lattice of the field although equal to the oracle"})
+            return fs
+        cmp_eq(fs, [int(x * S) for x in impl], a, name + f" [scaled by {float(S)!r}]")
+        if [int(x * S) for x in want] != a["spec"]:
+            fs.append({"kind": "model", "what": name + ": harness' own oracle != Lean oracle on the scaled field"})
+        return fs
+    ctx.add({"op": name, **N.base, "data": [float(v) for v in data], "nodata": float(nd_f), "dtype": np.dtype(dt).name,
+             "scale": float(S), "data_scaled": data_i, "nodata_scaled": nd_i}, req, judge,
+            nontrivial=N.nontriv and bool(filled) and n_near > 0)
+
+
 def case_fill(ctx, rng, N):
+    if rng.random() < 0.3:
+        return case_fill_near(ctx, rng, N)
     direction = rng.choice(["up", "down", "down"])
     nd = rng.choice([-9999, -1, 0])
     p_nd = rng.choice([0.3, 0.5, 0.8])
